@@ -69,7 +69,7 @@ ASSUMPTIONS = ["legal host: a packet is sent only after the device's packet has 
                ">= 2 idle cycles between packets, handshakes within the device's time-out",
                "answers that follow a deliberately damaged host packet are not judged for solicitation",
                "high-speed sessions use the real reset sequencer with the device-chirp duration constant scaled from 2 ms to 10 us",
-               "the device's address is what the last completed SET_ADDRESS / bus reset made it; foreign addresses never equal an old or new own address"]
+               "the device's address is what the last completed SET_ADDRESS / bus reset made it (a failed SET_ADDRESS is followed by a port reset); foreign = any other address, preferably one bit away"]
 
 HS_CHIRP_CYCLES = 600
 
@@ -134,8 +134,8 @@ def run_case(rng, tier, res):
     ready_profile = rng.choice(["always", "always", ("random", 0.5), ("random", 0.85), ("every", 2), ("every", 3), ("bursty", 6, 6)])
     feed = {n: rng.choice(["dense", "dense", "sparse", "never"]) for n, _ in in_eps}
     consume = {n: rng.choice(["always", "always", "random", "stalled"]) for n, _ in out_eps}
-    wire_faults = rng.random() < 0.25
-    avoid_blockram = rng.random() < 0.25
+    wire_faults = rng.random() < 0.3
+    avoid_blockram = rng.random() < 0.35
     order_seed = rng.randrange(1 << 16)
     timeout_min = {"fs12": 18, "fs60": 90, "hs": 102}[mode]
     timeout_max = {"fs12": 40, "fs60": 130, "hs": 130}[mode]
@@ -338,7 +338,6 @@ def run_case(rng, tier, res):
     # ------------------------------------------------------------------ legal host operations
     tog_out = {n: 0 for n in used_out}
     foreign = [a for a in rng.sample(range(1, 128), 6)]
-    own_addrs = {0}
     ops = res.desc["ops"]
 
     def log(*items):
@@ -349,7 +348,7 @@ def run_case(rng, tier, res):
         res.sig(items)
 
     def maybe_damage():
-        if wire_faults and rng.random() < 0.06:
+        if wire_faults and rng.random() < 0.10:
             host.damage_next = True
             return True
         return False
@@ -542,6 +541,8 @@ def run_case(rng, tier, res):
             dtype, idx = rng.choice([(1, 0), (1, 0), (2, 0), (2, 0), (3, 0), (3, 1), (3, 2), (3, 3), (3, 9), (6, 0), (0x22, 0), (2, 1)])
             total = {1: 18}.get(dtype, 64)
             wl = rng.choice([0, 1, 2, 8, 9, 18, 18, 32, 63, 64, 65, 128, 129, 255, 255, 256, rng.randint(0, 80), total])
+            if dtype == 3 and rng.random() < 0.5:
+                wl = 255                      # what real hosts do: read a string descriptor with wLength = 255
             return U.setup_bytes(0x80, 6, (dtype << 8) | idx, rng.choice([0, 0, 0x0409]), wl), None, "get_descriptor"
         if r < 0.50:
             rcpt = rng.choice([0x80, 0x81, 0x82])
@@ -579,9 +580,8 @@ def run_case(rng, tier, res):
         return result
 
     def op_set_address():
-        new = rng.choice([a for a in range(1, 128) if a not in foreign])
+        new = rng.choice([a for a in range(1, 128) if a != host.dev_addr])
         log("SET_ADDRESS", new)
-        own_addrs.add(new)
         result = yield from control_tracked(U.setup_bytes(0x00, 5, new, 0, 0))
         if result == "done":
             host.dev_addr = new
@@ -650,7 +650,8 @@ def run_case(rng, tier, res):
 
     def op_foreign():
         """a complete transaction of the host with another device on the same bus segment (downstream packets only)"""
-        fa = rng.choice([a for a in foreign if a not in own_addrs] or [126])
+        near = [host.dev_addr ^ (1 << k) for k in range(7)]           # addresses that differ from ours in one bit
+        fa = rng.choice([a for a in (foreign + near + near + [0]) if a != host.dev_addr])
         fe = rng.choice([0, sig_ep] + sorted(used_in) + sorted(used_out) + [rng.randrange(16)])
         k = rng.choice(["in_ack", "in_ack", "in_nak", "out", "out", "setup"])
         log("FOREIGN", k, fa, fe)
@@ -958,7 +959,8 @@ def run_case(rng, tier, res):
     def zlp_like(p):
         # a member of the stream may be garbled by the host's packet / the handshake generator running into it
         d = bytes(p["data"])
-        return 1 <= len(d) <= 4 and d[0] in (U.pid_byte(U.DATA0), U.pid_byte(U.DATA1)) and p["src"][1] == 1
+        # (with two transmitters valid the one-hot multiplexer outputs neither's data, so the bytes may be anything)
+        return len(d) <= 4 and p["src"][1] == 1
 
     streams = []
     run = []
